@@ -995,6 +995,7 @@ pub fn dir_layout_check(progs: &[crate::synth::Prog], property: &str) -> (Vec<Vi
     use crate::layout;
     let detectors = crate::dets::all();
     let sel = Selection { opts: opt::get_all_optimizations(), vulns: vul::get_all_vulnerabilities(), qas: qa::get_all_qa() };
+    let tb = crate::report::tables();
     let res = util::par_map(progs.len(), |pi| {
         let p = &progs[pi];
         let n = p.toks.len();
@@ -1025,6 +1026,52 @@ pub fn dir_layout_check(progs: &[crate::synth::Prog], property: &str) -> (Vec<Vi
             let mut want: Findings = BTreeMap::new();
             for (pat, toks) in &flagged {
                 want.insert(*pat, vec![("F.sol".to_string(), toks.iter().map(|&t| layout::line_of(&text, offs[t])).collect())]);
+            }
+            // ... and on through the report: the entries read back from the three rendered parts are the lines of
+            // the flagged tokens too (constructs that share a line in this layout are still all listed)
+            {
+                let r = root.to_str().unwrap().to_string();
+                let rendered = util::guarded(|| {
+                    let mut rep = String::new();
+                    rep.push_str(&solstat::report::vulnerability_report::generate_vulnerability_report(vul::analyze_dir(&r, sel.vulns.clone())));
+                    rep.push_str("\n\n");
+                    rep.push_str(&solstat::report::optimization_report::generate_optimization_report(opt::analyze_dir(&r, sel.opts.clone())));
+                    rep.push_str("\n\n");
+                    rep.push_str(&solstat::report::qa_report::generate_qa_report(qa::analyze_dir(&r, sel.qas.clone())));
+                    rep
+                });
+                let mut want_e: BTreeMap<Pat, Vec<(String, i64)>> = BTreeMap::new();
+                for (k, v) in &want {
+                    let e = want_e.entry(*k).or_default();
+                    for (f, ls) in v {
+                        for l in ls {
+                            e.push((f.clone(), *l as i64));
+                        }
+                    }
+                    e.sort();
+                }
+                let got_e = rendered.map(|rep| {
+                    let mut g = crate::report::parse_report(&rep, &tb).entries;
+                    for v in g.values_mut() {
+                        v.sort();
+                    }
+                    g.retain(|_, v| !v.is_empty());
+                    g
+                });
+                if got_e.as_ref().ok() != Some(&want_e) {
+                    vs.push(Violation {
+                        site: "report:entries-do-not-follow-layout".into(),
+                        input: format!("{:?}", text),
+                        expected: format!("the report lists, per pattern, the lines of the flagged tokens in this layout: {:?}", want_e),
+                        observed: match &got_e {
+                            Ok(g) => format!("{:?}", g),
+                            Err(e) => format!("panic: {}", e),
+                        },
+                        size: text.len(),
+                        unit_test: String::new(),
+                        extra: json!({"layout": lay.label, "property": property}),
+                    });
+                }
             }
             if got.as_ref().ok() != Some(&want) {
                 vs.push(Violation {
